@@ -1,6 +1,12 @@
 """Registry of claimed checks (drives tools/mkmanifest.py)."""
 
 REGISTRY = {
+    "C01": {
+        "text": "Every combination of non-terminating core (loops, recursion shapes, catastrophic regexes through every regex-consuming API, nested eval chains) x place where script code can run (33 placements: functions, constructors, every callback-taking built-in, accessors, conversions, call/apply/bind, eval, new Function) x try/catch/finally wrapper x deadline is run on the real engine under a virtual clock driven by the step hooks. Invariants asserted inside the hooks: no VM executes more than 1100 instructions, and no regex loop more than 300 (main) / 12000 (with lookarounds) consecutive steps, after the deadline; at the eval boundary the exception is exactly TimeLimitError, nothing runs or logs after the stop was raised, and a normal return proves END was logged. A real-clock tier ties ticks to wall time. Held = on the executions produced; T and operand sizes are sampled.",
+        "design_ref": "DESIGN.md 3/C01",
+        "note": "Trusts the step hooks to be called once per interpreter/regex step (they sit before the engine's own limit check) and the engine to read time only through time.monotonic; single native operations on huge operands are out of the property's scope.",
+        "technique": "invariant-at-a-hook monitor under a virtual clock (step-counted deadline overrun) + outcome oracle at the eval boundary + real-clock timing tier",
+    },
     "C06": {
         "text": "Every cell of the operand grid x operator table (about 10^5 one-expression programs, enumerated completely), every compound/update operator on eight assignment-target forms, and seeded random expression trees are evaluated on the real engine and compared bit-exactly (type, value, sign of zero, NaN) with node; integral operands are additionally run in int and float host representation and must agree. Held = no disagreement on what was run; exploration, not proof: operands outside the grid are not covered.",
         "design_ref": "DESIGN.md 3/C06",
